@@ -100,6 +100,13 @@ def _mutate(rng, op, mapping, fam="II"):
     name = op[0]
     spec = ["ood", rng.choice(OOD_NAMES)]
     kspec = ["ood", rng.choice(OKEY_OOD)] if fam[0] == "O" else spec
+    if name in ("update", "supdate", "ior", "iand", "isub", "ixor",
+                "isdisjoint", "ctor") and op[2] != "self" and \
+            rng.random() < 0.25:
+        # the operand is an iterator that fails after its last item: the
+        # iterator's own exception must come out of both implementations
+        op[2] = "gen-raises"
+        return op
     if name in ("set", "setdefault", "insert", "getd", "popd"):
         pos = rng.choice([1, 2])
         op[pos] = kspec if pos == 1 else spec
